@@ -57,7 +57,8 @@ def generate_ops(rng, cfg, spec, tier) -> list[dict]:
     while len(ops) < n:
         r = rng.random()
         if (cfg.get("dask_eager") or lazy) and rng.random() < (0.3 if cfg.get("dask_eager") else 0.12):
-            fk = rng.choice(["fit", "fit", "fit", "query", "rot"]) if cfg.get("dask_eager") else rng.choice(["compute", "compute", "query", "rot"])
+            fk = rng.choice(["fit", "fit", "fit", "query", "rot"] + (["boot", "boot"] if cfg["boot_params"] else [])) if cfg.get("dask_eager") \
+                else rng.choice(["compute", "compute", "query", "rot"])
             fault = {"call": rng.choice([1, 1, 1, 2, 2, 3, 4, 5, 6, 8, 10, 12]), "at": rng.choice([1, 1, 2, 3, 5, 8, 20, 60]),
                      "exc": rng.choice(["InjectedFault", "MemoryError", "OSError"])}
             if fk == "fit":
@@ -77,6 +78,15 @@ def generate_ops(rng, cfg, spec, tier) -> list[dict]:
                 # written must not change a later answer
                 tgt = "r" if (has_rot and rng.random() < 0.4) else "m"
                 ops.append(dict({"op": "query_fault", "target": tgt, "q": q_for(tgt)}, **dict(fault, call=rng.choice([1, 1, 2]))))
+            elif fk == "boot":
+                # bootstrapper.fit(model) fails inside its member loop; the same bootstrapper object is then fitted
+                # again and must give what a fresh bootstrapper gives
+                ops.append({"op": "boot_fit", "reuse": any(o["op"] == "boot_fit" for o in ops) and rng.random() < 0.5,
+                            "fault": dict(fault, call=rng.choice([1, 2, 3, 5, 8, 12, 16, 20]))})
+                has_boot = False
+                if rng.random() < 0.75:
+                    ops.append({"op": "boot_fit", "reuse": True})
+                    has_boot = True
             elif fk == "rot" and cfg["rot_params"]:
                 # rotator.fit(model) fails half-way: the rotator is unusable, the base model must be intact
                 ops.append(dict({"op": "rot_fit", "reuse": bool(has_rot) and rng.random() < 0.5, "fault": fault}))
@@ -470,6 +480,7 @@ def execute(cfg: dict, *, stop_at_first=True, trace=False) -> RunResult:
                         counts["task_faults"] += 1
                         counts["rot_fit_faults"] = counts.get("rot_fit_faults", 0) + 1
                         st["r_valid"] = False
+                        st["r"] = r          # kept: the same rotator object may be fitted again
                         res.log.append(f"  rot_fit under an injected fault -> {out.kind()}")
                         probe(op, k=3, inv="H4")
                         if not hard():
@@ -515,16 +526,33 @@ def execute(cfg: dict, *, stop_at_first=True, trace=False) -> RunResult:
                         counts["boot_refits"] = counts.get("boot_refits", 0) + 1
                     else:
                         b = EOFBootstrapper(**cfg["boot_params"])
+                    flt = op.get("fault")
+                    if flt:
+                        sim.cfg.permanent_at, sim.cfg.permanent_exc, sim.cfg.permanent_call = int(flt["at"]), flt["exc"], int(flt["call"])
+                        sim.cfg.armed_calls = 0
                     out = oracle.capture(b.fit, m)
+                    if flt:
+                        sim.cfg.permanent_at = None
+                        sim.cfg.armed_calls = 0
                     _, _, rout, _ = refs.boot(st["m_fit"])
                     counts["boot_fits"] += 1
                     res.log.append(f"  boot_fit -> {out.kind()} ref {rout.kind()}")
-                    if out.kind() != rout.kind():
+                    if flt and not out.ok and out.exc_type == flt["exc"] and "injected" in out.exc_msg:
+                        # the bootstrapper is undefined (and kept: it may be fitted again); the model must be intact
+                        counts["task_faults"] += 1
+                        counts["boot_fit_faults"] = counts.get("boot_fit_faults", 0) + 1
+                        st.update(b=b, b_valid=False)
+                        probe(op, k=2, inv="H4")
+                    elif out.kind() != rout.kind():
                         violate("H1", f"outcome:{out.kind()}!={rout.kind()}",
                                 f"bootstrapper.fit(model) -> {out.kind()} {out.exc_msg[:160]!r}; with a fresh model -> {rout.kind()}", op)
                     elif out.ok:
                         st.update(b=b, b_valid=True, b_fit=st["m_fit"])
                         probe(op, k=3, inv="H4")
+                        if not hard():
+                            # the bootstrapper's own answers right after (re)fitting it
+                            bq = [{"q": "call", "name": nm_, "kw": {}} for nm_ in ("explained_variance", "components", "scores")]
+                            check_queries("b", bq[:2] if not op.get("reuse") else bq, op, "H2" if op.get("reuse") else "H1")
             elif kind == "ambient":
                 core.ambient_event(seed, str(op["id"]), clock)
                 counts["ambient"] += 1
@@ -631,6 +659,8 @@ def _opk(op):
         return f"qfault{op['target']}:{_qname(op['q'])}"
     if k == "rot_fit" and op.get("fault"):
         return "rot_fit_fault"
+    if k == "boot_fit" and op.get("fault"):
+        return "boot_fit_fault"
     return k
 
 
